@@ -322,3 +322,110 @@ def H4(vc):
         vc.canary('canary.always_matched', W.result[1] is True)
     vc.canary('canary.never_touches', len(W.appended) == 0)
     return _summary(W)
+
+
+# ----------------------------------------------------------------------------------------------- H5
+@harness('H5', targets='kopf._core.reactor.processing._detect_causes', props=['C03', 'C04', 'C10', 'C14'],
+         clauses=['old_is_cleared_stored', 'new_is_cleared_built', 'one_diff', 'initial_formula', 'reset_is_essential_change',
+                  'detectors_gated', 'passes_through'],
+         canaries=['canary.always_initial', 'canary.always_all_causes'],
+         trusted=['diffbase_storage.fetch/build, progress_storage.clear (E1) and diffs.diff (E3) by contract: pure functions of their arguments',
+                  'causes.detect_watching_cause/detect_spawning_cause: plain constructors of the cause records'])
+def H5(vc):
+    """
+    _detect_causes: `old` is the *stored* essence (diffbase fetch of this body) passed through
+    progress_storage.clear (None stays None), `new` is the essence *built from this body* -- with the
+    extra fields of all three registries -- passed through clear; exactly one diffs.diff(old, new) is
+    computed and that one result goes to the changing detector, its truth value as `reset` to the spawning
+    detector; initial == memory.noticed_by_listing and not memory.fully_handled_once; each detector is
+    called (once) iff its registry has handlers for the resource, else its cause is None; event, body,
+    patch, memo, resource, indices and settings.persistence.finalizer are handed through unchanged.
+    """
+    body, patch, resource, memo, indices = Opaque('body'), Opaque('patch'), Opaque('resource'), Opaque('memo'), Opaque('indices')
+    raw_event = {'type': vc.fin('event.type', ETYPES), 'object': {}}
+    nbl, fho = vc.bool('memory.noticed_by_listing'), vc.bool('memory.fully_handled_once')
+    memory = Opaque('memory', memo=memo, noticed_by_listing=nbl, fully_handled_once=fho)
+    indexers = Opaque('indexers', indices=indices)
+    has = {k: vc.bool(f'{k}.has_handlers') for k in ('watching', 'spawning', 'changing')}
+    extra = {'watching': {('status', 'w')}, 'spawning': {('status', 's')}, 'changing': {('status', 'c'), ('spec', 'x')}}
+    regs = {}
+    for k in has:
+        r = Opaque(f'registry._{k}')
+        r.has_handlers = (lambda k: lambda resource: (vc.emit('has_handlers', k, resource), has[k])[1])(k)
+        r.get_extra_fields = (lambda k: lambda resource: (vc.emit('get_extra_fields', k, resource), frozenset(extra[k]))[1])(k)
+        regs[k] = r
+    registry = Opaque('registry', _watching=regs['watching'], _spawning=regs['spawning'], _changing=regs['changing'])
+    stored = vc.fin('stored essence', [None, {'spec': {'x': 1}}])
+    stored = resolve(stored)
+    built = {'spec': {'x': 2}}
+    cleared = {}                        # id(input essence) -> the cleared essence returned for it
+
+    def fetch(body):
+        vc.emit('fetch', body); return stored
+
+    def build(body, extra_fields=None):
+        vc.emit('build', body, extra_fields); return built
+
+    def clear(essence):
+        vc.emit('clear', essence)                 # a pure function of the essence: same argument, same result
+        if id(essence) not in cleared:
+            cleared[id(essence)] = {'cleared': essence}
+        return cleared[id(essence)]
+    diff_nonempty = vc.bool('diff non-empty')
+    diff_obj = Opaque('diff', truth=diff_nonempty)
+
+    def diff(a, b):
+        vc.emit('diff', a, b); return diff_obj
+    settings = Opaque('settings', persistence=Opaque(
+        'persistence', finalizer='fin.example.com/kopf',
+        diffbase_storage=Opaque('diffbase_storage', fetch=fetch, build=build),
+        progress_storage=Opaque('progress_storage', clear=clear)))
+    made = {k: Opaque(f'{k}_cause') for k in has}
+
+    def detector(k):
+        def detect(**kw):
+            vc.emit('detect', k, kw); return made[k]
+        return detect
+    vc.used('causes.detect_changing_cause', 'K1'); vc.used('diffs.diff', 'E3'); vc.used('diffbase/progress storages', 'E1')
+    ld = vc.load('kopf._core.reactor.processing', '_detect_causes', stubs={
+        'diffs.diff': diff,
+        'causes.detect_watching_cause': detector('watching'),
+        'causes.detect_spawning_cause': detector('spawning'),
+        'causes.detect_changing_cause': detector('changing'),
+    })
+    local_logger, event_logger = NullLogger(), NullLogger()
+    res = ld.fn(indexers=indexers, registry=registry, settings=settings, resource=resource, raw_event=raw_event,
+                body=body, patch=patch, memory=memory, local_logger=local_logger, event_logger=event_logger)
+    tr = vc.trace
+    calls = {k: [ev[2] for ev in tr if ev[0] == 'detect' and ev[1] == k] for k in has}
+    for n, k in enumerate(('watching', 'spawning', 'changing')):
+        vc.ensure('detectors_gated', Iff(len(calls[k]) == 1, has[k]) and len(calls[k]) <= 1)
+        vc.ensure('detectors_gated', res[n] is (made[k] if calls[k] else None))
+    vc.ensure('detectors_gated', len(res) == 3)
+    diffs_ = [ev for ev in tr if ev[0] == 'diff']
+    fetches = [ev for ev in tr if ev[0] == 'fetch']
+    builds = [ev for ev in tr if ev[0] == 'build']
+    want_old = None if stored is None else cleared.get(id(stored))
+    want_new = cleared.get(id(built))
+    vc.ensure('old_is_cleared_stored', all(ev[1] is body for ev in fetches) and len(fetches) >= 1
+              and (stored is None or want_old is not None))
+    vc.ensure('new_is_cleared_built', all(ev[1] is body for ev in builds) and len(builds) >= 1 and want_new is not None
+              and all(ev[2] == extra['watching'] | extra['spawning'] | extra['changing'] for ev in builds))
+    vc.ensure('one_diff', len(diffs_) == 1 and diffs_[0][1] is want_old and diffs_[0][2] is want_new)
+    for kw in calls['changing']:
+        vc.ensure('old_is_cleared_stored', kw['old'] is want_old)
+        vc.ensure('new_is_cleared_built', kw['new'] is want_new)
+        vc.ensure('one_diff', kw['diff'] is diff_obj)
+        vc.ensure('initial_formula', Iff(kw['initial'], And(nbl, Not(fho))))
+        vc.canary('canary.always_initial', kw['initial'])
+        vc.ensure('passes_through', kw['finalizer'] is settings.persistence.finalizer and kw['memo'] is memo)
+    for kw in calls['spawning']:
+        vc.ensure('reset_is_essential_change', Iff(kw['reset'], diff_nonempty))
+    for k in has:
+        for kw in calls[k]:
+            vc.ensure('passes_through', kw['body'] is body and kw['patch'] is patch and kw['resource'] is resource
+                      and kw['indices'] is indices and kw['memo'] is memo
+                      and (k == 'spawning' or kw['raw_event'] is raw_event))
+    vc.ensure('passes_through', all(ev[2] is resource for ev in tr if ev[0] in ('has_handlers', 'get_extra_fields')))
+    vc.canary('canary.always_all_causes', all(r is not None for r in res))
+    return ('return', [r is not None for r in res], stored is None)
